@@ -21,6 +21,8 @@ unsigned char vp_retdst[64] __attribute__((aligned(64)));
 volatile int vp_ncall, vp_nid;
 volatile long vp_one, vp_x[3], vp_sink;
 volatile double vp_done, vp_dx[3], vp_dsink;
+volatile long double vp_ldsrc;
+volatile long vp_lconv;
 extern unsigned long vp_t_rax, vp_t_retrax, vp_t_entrdi;
 extern int vp_t_calls, vp_t_bad, vp_t_misaligned, vp_t_depth;
 
@@ -83,6 +85,7 @@ int main(int argc, char **argv) {
     vp_ncall = vp_nid = 0;
     vp_one = 1; vp_x[0] = 10; vp_x[1] = 100; vp_x[2] = 1000; vp_sink = 0;
     vp_done = 1.0; vp_dx[0] = 0.5; vp_dx[1] = 0.25; vp_dx[2] = 0.125; vp_dsink = 0;
+    vp_ldsrc = 2.75L; vp_lconv = 2;
     vp_t_calls = vp_t_bad = vp_t_misaligned = vp_t_depth = 0;
     vp_t_rax = 0;
     alarm(20);
@@ -113,6 +116,7 @@ int main(int argc, char **argv) {
       if (cfg == 0 || cfg == 3) printf("O %d %d gcc callee: rax != hidden pointer\n", n, cfg);
       else ADD(" raxptr=%s", "lost");
     }
+    if (vp_lconv != 2) ADD(" lconv=%ld", vp_lconv);
     if (vp_sink != g->sink) ADD(" sink=%ld", vp_sink);
     if (vp_dsink != g->dsink) ADD(" dsink=%g", vp_dsink);
     if (len) printf("F %d %d%s\n", n, cfg, line);
